@@ -7,6 +7,7 @@
 //!   same workload, compute the state of every completed commit from its clean image, then
 //!   materialise every crash plan, reopen it through the real open path and decide C15.
 mod export;
+mod recrash;
 mod replay;
 mod snap;
 mod workload;
@@ -132,6 +133,18 @@ fn main() {
             }
             rp.cleanup();
             let _ = out.lock().unwrap_or_else(|p| p.into_inner()).flush();
+        }
+        "recrash" => {
+            let mut out = args.out();
+            for (i, it) in args.read_input().iter().enumerate() {
+                match vrt::catch_any(|| recrash::run_one(it)) {
+                    Ok(Ok(obs)) => out.ok(i, obs),
+                    Ok(Err((key, msg, obs))) if key == "C15:tool" => { let _ = obs; vrt::die(&msg) }
+                    Ok(Err((key, msg, obs))) => out.fail(i, -1, &key, &msg, obs),
+                    Err(p) => out.fail(i, -1, "C15:panic", &format!("panic: {p}"), json!({})),
+                }
+            }
+            out.finish();
         }
         s => vrt::die(&format!("unknown subcommand {s}")),
     }
